@@ -22,8 +22,9 @@ through `path_mut()` keeps the buffer valid by `C04.path_session`, query and fra
 the setters of C04), the inputs being unchanged because the model is a pure function; and (ii)
 the scheme-mismatch branch returns `a` itself; and (iii) **the round trip itself on the class the
 function was written for** (`roundtrip_on_class_partial`): same scheme, equal authorities, absolute
-paths (the base's may also be empty), a non-empty remainder of `a`'s normalised segments, without
-empty segments, after the common prefix with the base's directory (and, when `a` has a query or a
+paths (the base's may also be empty), a non-empty remainder of `a`'s normalised segments after the
+common prefix with the base's directory, which does not begin with an empty segment unless that
+common prefix is itself non-empty (and, when `a` has a query or a
 fragment, the relative path must not coincide with the base's last segment — the one special case
 of the code).  There `a.relative_to(b)` is
 `../` for every remaining segment of the base's directory followed by that remainder
@@ -91,7 +92,9 @@ theorem roundtrip_on_class_partial (G : Grammar) (ok : Lemmas.Grammar.Ok G) (okp
           (Ref.dropCommon (nsegs (split a).path) (nsegs (Path.parent_or_empty (split b).path))).1))
         == Path.last (split b).path) = false)
     (hrem : (Ref.dropCommon (nsegs (split a).path) (nsegs (Path.parent_or_empty (split b).path))).1 ≠ [] ∧
-      [] ∉ (Ref.dropCommon (nsegs (split a).path) (nsegs (Path.parent_or_empty (split b).path))).1) :
+      ((Ref.dropCommon (nsegs (split a).path) (nsegs (Path.parent_or_empty (split b).path))).2.length
+          < (nsegs (Path.parent_or_empty (split b).path)).length ∨
+        (Ref.dropCommon (nsegs (split a).path) (nsegs (Path.parent_or_empty (split b).path))).1.head? ≠ some [])) :
     ∃ r t, Ref.relative_to a b = some r ∧ Ref.resolve r b = some t ∧ key t = key a :=
   Lemmas.relative_roundtrip G ok okp oka we a b aa ab ha hb hsch haa hab hauth hpa hpb hnsp hrem
 
@@ -108,7 +111,9 @@ theorem class_outside_f12 (G : Grammar) (ok : Lemmas.Grammar.Ok G) (okp : Lemmas
           (Ref.dropCommon (nsegs (split a).path) (nsegs (Path.parent_or_empty (split b).path))).1))
         == Path.last (split b).path) = false)
     (hrem : (Ref.dropCommon (nsegs (split a).path) (nsegs (Path.parent_or_empty (split b).path))).1 ≠ [] ∧
-      [] ∉ (Ref.dropCommon (nsegs (split a).path) (nsegs (Path.parent_or_empty (split b).path))).1) :
+      ((Ref.dropCommon (nsegs (split a).path) (nsegs (Path.parent_or_empty (split b).path))).2.length
+          < (nsegs (Path.parent_or_empty (split b).path)).length ∨
+        (Ref.dropCommon (nsegs (split a).path) (nsegs (Path.parent_or_empty (split b).path))).1.head? ≠ some [])) :
     Findings.f12 a b = false := by
   obtain ⟨r, t, e1, e2, hk⟩ := roundtrip_on_class_partial G ok okp oka we a b aa ab ha hb hsch haa hab hauth hpa hpb hnsp hrem
   unfold Findings.f12
@@ -144,7 +149,9 @@ theorem uri_roundtrip_on_class_partial (a b aa ab : Text) (ha8 : ∀ c ∈ a, c 
           (Ref.dropCommon (nsegs (split a).path) (nsegs (Path.parent_or_empty (split b).path))).1))
         == Path.last (split b).path) = false)
     (hrem : (Ref.dropCommon (nsegs (split a).path) (nsegs (Path.parent_or_empty (split b).path))).1 ≠ [] ∧
-      [] ∉ (Ref.dropCommon (nsegs (split a).path) (nsegs (Path.parent_or_empty (split b).path))).1) :
+      ((Ref.dropCommon (nsegs (split a).path) (nsegs (Path.parent_or_empty (split b).path))).2.length
+          < (nsegs (Path.parent_or_empty (split b).path)).length ∨
+        (Ref.dropCommon (nsegs (split a).path) (nsegs (Path.parent_or_empty (split b).path))).1.head? ≠ some [])) :
     ∃ r t, Ref.relative_to a b = some r ∧ Ref.resolve r b = some t ∧ key t = key a :=
   roundtrip_on_class_partial uriG Lemmas.uriG_ok Lemmas.uriG_okPath Lemmas.uriG_okAuth Lemmas.uriG_okWE a b aa ab
     (Valid.uri_octets a ha8 ha) (Valid.uri_octets b hb8 hb) hsch haa hab hauth hpa hpb hnsp hrem
@@ -161,7 +168,9 @@ theorem iri_roundtrip_on_class_partial (a b aa ab : Text) (ha8 : ∀ c ∈ a, c 
           (Ref.dropCommon (nsegs (split a).path) (nsegs (Path.parent_or_empty (split b).path))).1))
         == Path.last (split b).path) = false)
     (hrem : (Ref.dropCommon (nsegs (split a).path) (nsegs (Path.parent_or_empty (split b).path))).1 ≠ [] ∧
-      [] ∉ (Ref.dropCommon (nsegs (split a).path) (nsegs (Path.parent_or_empty (split b).path))).1) :
+      ((Ref.dropCommon (nsegs (split a).path) (nsegs (Path.parent_or_empty (split b).path))).2.length
+          < (nsegs (Path.parent_or_empty (split b).path)).length ∨
+        (Ref.dropCommon (nsegs (split a).path) (nsegs (Path.parent_or_empty (split b).path))).1.head? ≠ some [])) :
     ∃ r t, Ref.relative_to a b = some r ∧ Ref.resolve r b = some t ∧ key t = key a :=
   roundtrip_on_class_partial Lemmas.iriGB Lemmas.iriGB_ok Lemmas.iriGB_okPath Lemmas.iriGB_okAuth Lemmas.iriGB_okWE
     a b aa ab (Valid.iri_octets a ha8 ha) (Valid.iri_octets b hb8 hb) hsch haa hab hauth hpa hpb hnsp hrem
@@ -174,6 +183,10 @@ example :
     isAbs (split a).path = true ∧ isAbs (split b).path = true ∧ (split a).fragment = some [0x66] ∧
     (Ref.dropCommon (nsegs (split a).path) (nsegs (Path.parent_or_empty (split b).path))).1 = [[0x62], [0x63]] ∧
     Ref.relative_to a b = some [0x2E,0x2E,0x2F,0x62,0x2F,0x63,0x23,0x66] := by decide
+
+/-- the class contains a directory relative to a file in it: `s://h/a/` relative to `s://h/a/b` is `./` -/
+example : Ref.relative_to [0x73,0x3A,0x2F,0x2F,0x68,0x2F,0x61,0x2F] [0x73,0x3A,0x2F,0x2F,0x68,0x2F,0x61,0x2F,0x62]
+    = some [0x2E,0x2F] := by decide
 
 /-- the class contains bases with an empty path: `s://h/a/b` relative to `s://h` is `a/b` -/
 example : Ref.relative_to [0x73,0x3A,0x2F,0x2F,0x68,0x2F,0x61,0x2F,0x62] [0x73,0x3A,0x2F,0x2F,0x68]
